@@ -2,8 +2,10 @@ package main
 
 import (
 	"bytes"
+	"encoding/json"
 	"fmt"
 	"io"
+	"os"
 	"strconv"
 	"strings"
 
@@ -98,6 +100,14 @@ func (r *recorder) Value(k interface{}) interface{} { return nil }
 func (r *recorder) Keys() []interface{}             { return nil }
 func (r *recorder) LockData() app.DataScopeLocker   { return nil }
 
+func expBytes(e [][]string) [][][]int {
+	r := make([][][]int, len(e))
+	for i, c := range e {
+		r[i] = strsBytes(c)
+	}
+	return r
+}
+
 var c17Alphabet = []byte{' ', '\t', '\n', '"', '\\', '=', '<', 'a', 0xC3}
 
 func runC17(o *Out, rng *RNG, tier string, replay string) {
@@ -119,6 +129,151 @@ func runC17(o *Out, rng *RNG, tier string, replay string) {
 			o.Fail("no_panic", "ReadArguments panicked", "panic", ob.desc(input))
 		}
 		return ob
+	}
+
+	checkTokens := func(all []byte, expected [][]string, tail string) {
+		// L1 on the first command
+		addRead(append([]byte{}, all...))
+		// L2: successive reads from ONE reader return the successive commands
+		rd := bytes.NewReader(all)
+		okAll := true
+		for ci, exp := range expected {
+			ob := implReadFrom(rd)
+			if ob.Kind != "ok" || ob.EOF || !sameArgs(ob.Args, exp) {
+				okAll = false
+				o.Fail("tokens_roundtrip", fmt.Sprintf("command %d: expected %q eof=false, got kind=%s args=%q eof=%v", ci, exp, ob.Kind, ob.Args, ob.EOF),
+					"tokens", map[string]interface{}{"op": "tokens", "input": byteList(all), "expected": expBytes(expected)})
+				break
+			}
+		}
+		if okAll {
+			ob := implReadFrom(rd)
+			var exp []string
+			if tail != "" {
+				exp = []string{tail}
+			}
+			if ob.Kind != "ok" || !ob.EOF || !sameArgs(ob.Args, exp) {
+				o.Fail("eof", fmt.Sprintf("after the last command expected %q eof=true, got kind=%s args=%q eof=%v", exp, ob.Kind, ob.Args, ob.EOF),
+					"eof", map[string]interface{}{"op": "tokens", "input": byteList(all), "expected": expBytes(expected), "tail": byteList([]byte(tail))})
+			}
+		}
+	}
+
+	doInject := func(args []string) {
+		r := &recorder{}
+		var panicked bool
+		func() {
+			defer func() {
+				if recover() != nil {
+					panicked = true
+				}
+			}()
+			argscope.InjectArgs(r, args...)
+		}()
+		if panicked || len(r.sets) == 0 || r.sets[0][0] != "--" {
+			o.Fail("inject_shape", "InjectArgs panicked or did not set \"--\" first", "inject", map[string]interface{}{"op": "inject", "args": strsBytes(args)})
+			return
+		}
+		sep, _ := r.sets[0][1].([]string)
+		var items []string
+		// L2: independent expectation
+		var expSets [][2]string
+		pos := 0
+		var expSep []string
+		sepIdx := -1
+		for j, a := range args {
+			if a == "--" {
+				sepIdx = j
+				break
+			}
+		}
+		before := args
+		if sepIdx >= 0 {
+			before = args[:sepIdx]
+			expSep = args[sepIdx+1:]
+		}
+		for _, a := range before {
+			if idx := strings.Index(a, "="); idx >= 0 {
+				t := strings.TrimPrefix(strings.TrimPrefix(a, "-"), "-")
+				idx = strings.Index(t, "=")
+				expSets = append(expSets, [2]string{t[:idx], t[idx+1:]})
+			} else {
+				expSets = append(expSets, [2]string{"$" + strconv.Itoa(pos), a})
+				pos++
+			}
+		}
+		ok := sameArgs(sep, expSep) && len(expSets) == len(r.sets)-1
+		for _, s := range r.sets[1:] {
+			k, _ := s[0].(string)
+			v, _ := s[1].(string)
+			if strings.HasPrefix(k, "$") && !strings.Contains(v+"=", "=x=") { // positional keys rendered as KPos
+			}
+			keyTerm := fmt.Sprintf("KName %s", coqStr(k))
+			if strings.HasPrefix(k, "$") {
+				if n, err := strconv.Atoi(k[1:]); err == nil && !strings.Contains(k, "=") {
+					keyTerm = fmt.Sprintf("KPos %d%%nat", n)
+				}
+			}
+			items = append(items, fmt.Sprintf("(%s, %s)", keyTerm, coqStr(v)))
+		}
+		if ok {
+			for j, e := range expSets {
+				k, _ := r.sets[j+1][0].(string)
+				v, _ := r.sets[j+1][1].(string)
+				if k != e[0] || v != e[1] {
+					ok = false
+				}
+			}
+		}
+		desc := map[string]interface{}{"op": "inject", "args": strsBytes(args)}
+		if !ok {
+			o.Fail("inject", fmt.Sprintf("InjectArgs(%q): sets=%v", args, r.sets), "inject", desc)
+		}
+		o.AddCase(fmt.Sprintf("CInject %s %s %s", coqStrList(args), coqList(items), coqStrList(sep)), desc, "i:"+strings.Join(args, "\x00"), len(args) > 0)
+		o.Stat("inject")
+	}
+
+	if replay != "" { // re-run the one input of a replay file
+		b, err := os.ReadFile(replay)
+		must(err)
+		var rp struct {
+			Case struct {
+				Op       string    `json:"op"`
+				Input    []int     `json:"input"`
+				Args     [][]int   `json:"args"`
+				Expected [][][]int `json:"expected"`
+				Tail     []int     `json:"tail"`
+			} `json:"case"`
+		}
+		must(json.Unmarshal(b, &rp))
+		toB := func(l []int) []byte {
+			r := make([]byte, len(l))
+			for i, v := range l {
+				r[i] = byte(v)
+			}
+			return r
+		}
+		switch rp.Case.Op {
+		case "inject":
+			args := make([]string, len(rp.Case.Args))
+			for i, a := range rp.Case.Args {
+				args[i] = string(toB(a))
+			}
+			doInject(args)
+		case "tokens":
+			var exp [][]string
+			for _, c := range rp.Case.Expected {
+				var cmd []string
+				for _, a := range c {
+					cmd = append(cmd, string(toB(a)))
+				}
+				exp = append(exp, cmd)
+			}
+			checkTokens(toB(rp.Case.Input), exp, string(toB(rp.Case.Tail)))
+		default:
+			addRead(toB(rp.Case.Input))
+		}
+		return
 	}
 
 	// (1) exhaustive
@@ -258,31 +413,7 @@ func runC17(o *Out, rng *RNG, tier string, replay string) {
 		for k := range kinds {
 			o.Stat("tok_" + k)
 		}
-		// L1 on the first command
-		addRead(append([]byte{}, all...))
-		// L2: successive reads from ONE reader return the successive commands
-		rd := bytes.NewReader(all)
-		okAll := true
-		for ci, exp := range expected {
-			ob := implReadFrom(rd)
-			if ob.Kind != "ok" || ob.EOF || !sameArgs(ob.Args, exp) {
-				okAll = false
-				o.Fail("tokens_roundtrip", fmt.Sprintf("command %d: expected %q eof=false, got kind=%s args=%q eof=%v", ci, exp, ob.Kind, ob.Args, ob.EOF),
-					"tokens", map[string]interface{}{"op": "tokens", "input": byteList(all), "expected": expected})
-				break
-			}
-		}
-		if okAll {
-			ob := implReadFrom(rd)
-			var exp []string
-			if tail != "" {
-				exp = []string{tail}
-			}
-			if ob.Kind != "ok" || !ob.EOF || !sameArgs(ob.Args, exp) {
-				o.Fail("eof", fmt.Sprintf("after the last command expected %q eof=true, got kind=%s args=%q eof=%v", exp, ob.Kind, ob.Args, ob.EOF),
-					"eof", map[string]interface{}{"op": "tokens", "input": byteList(all), "expected": expected, "tail": tail})
-			}
-		}
+		checkTokens(all, expected, tail)
 	}
 
 	// (4) InjectArgs
@@ -301,76 +432,6 @@ func runC17(o *Out, rng *RNG, tier string, replay string) {
 				args[j] = argPool[rng.Intn(len(argPool))]
 			}
 		}
-		r := &recorder{}
-		var panicked bool
-		func() {
-			defer func() {
-				if recover() != nil {
-					panicked = true
-				}
-			}()
-			argscope.InjectArgs(r, args...)
-		}()
-		if panicked || len(r.sets) == 0 || r.sets[0][0] != "--" {
-			o.Fail("inject_shape", "InjectArgs panicked or did not set \"--\" first", "inject", map[string]interface{}{"op": "inject", "args": strsBytes(args)})
-			continue
-		}
-		sep, _ := r.sets[0][1].([]string)
-		var items []string
-		// L2: independent expectation
-		var expSets [][2]string
-		pos := 0
-		var expSep []string
-		sepIdx := -1
-		for j, a := range args {
-			if a == "--" {
-				sepIdx = j
-				break
-			}
-		}
-		before := args
-		if sepIdx >= 0 {
-			before = args[:sepIdx]
-			expSep = args[sepIdx+1:]
-		}
-		for _, a := range before {
-			if idx := strings.Index(a, "="); idx >= 0 {
-				t := strings.TrimPrefix(strings.TrimPrefix(a, "-"), "-")
-				idx = strings.Index(t, "=")
-				expSets = append(expSets, [2]string{t[:idx], t[idx+1:]})
-			} else {
-				expSets = append(expSets, [2]string{"$" + strconv.Itoa(pos), a})
-				pos++
-			}
-		}
-		ok := sameArgs(sep, expSep) && len(expSets) == len(r.sets)-1
-		for _, s := range r.sets[1:] {
-			k, _ := s[0].(string)
-			v, _ := s[1].(string)
-			if strings.HasPrefix(k, "$") && !strings.Contains(v+"=", "=x=") { // positional keys rendered as KPos
-			}
-			keyTerm := fmt.Sprintf("KName %s", coqStr(k))
-			if strings.HasPrefix(k, "$") {
-				if n, err := strconv.Atoi(k[1:]); err == nil && !strings.Contains(k, "=") {
-					keyTerm = fmt.Sprintf("KPos %d%%nat", n)
-				}
-			}
-			items = append(items, fmt.Sprintf("(%s, %s)", keyTerm, coqStr(v)))
-		}
-		if ok {
-			for j, e := range expSets {
-				k, _ := r.sets[j+1][0].(string)
-				v, _ := r.sets[j+1][1].(string)
-				if k != e[0] || v != e[1] {
-					ok = false
-				}
-			}
-		}
-		desc := map[string]interface{}{"op": "inject", "args": strsBytes(args)}
-		if !ok {
-			o.Fail("inject", fmt.Sprintf("InjectArgs(%q): sets=%v", args, r.sets), "inject", desc)
-		}
-		o.AddCase(fmt.Sprintf("CInject %s %s %s", coqStrList(args), coqList(items), coqStrList(sep)), desc, "i:"+strings.Join(args, "\x00"), len(args) > 0)
-		o.Stat("inject")
+		doInject(args)
 	}
 }
